@@ -130,13 +130,31 @@ func (it *NativeIterator) Merge(oldval []byte) (val []byte, err error) {
 		// Current LMDB value has a higher timestamp, so keep that one
 		return oldval, nil
 	}
-	if newTS == oldTS && bytes.Compare(actualOldVal, entryVal) <= 0 {
+	if newTS == oldTS {
 		// Same timestamp, lexicographic lower app value wins for deterministic values,
 		// so return the old value if the plain value was lower or equal.
-		return oldval, nil
+		cmp := bytes.Compare(actualOldVal, entryVal)
+		if cmp < 0 {
+			return oldval, nil
+		}
+		// Same timestamp and same app value: the entries can still differ in
+		// their deleted flag (deletion marker vs live empty value). A deletion
+		// wins then, so that the outcome does not depend on the merge order.
+		if cmp == 0 && (h.Flags.IsDeleted() || !it.entryIsDeleted(entry)) {
+			return oldval, nil
+		}
 	}
 	// Update LMDB value
 	return it.addHeader(entryVal, newTS, entry.MaskedFlags(), false)
+}
+
+// entryIsDeleted reports if a snapshot entry denotes a deletion, taking into
+// account that snapshots before formatVersion 2 used an empty value for this.
+func (it *NativeIterator) entryIsDeleted(entry snapshot.KV) bool {
+	if entry.MaskedFlags().IsDeleted() {
+		return true
+	}
+	return len(entry.Value) == 0 && it.FormatVersion < 2
 }
 
 func (it *NativeIterator) Clean(oldval []byte) (val []byte, err error) {
